@@ -157,6 +157,37 @@ func c09LabelShortNames(n, labLen int) []byte {
 	return out
 }
 
+// hiddenChain: in line the buffer is `units` legal short names
+// ([62][63 'a'*61][0]); read from offset 1 the label CONTENTS frame as one chain
+// of 63-octet labels that hops over every in-line terminator and ends at the
+// planted tail [1][0][0].  A fan of pointers to offset 1 follows.  units <= 0:
+// the chain takes about a third of the buffer.  (seeded change C09-1: a name cap
+// applied to in-line labels only lets every pointer materialise the whole chain.)
+func c09LabelHiddenChain(n, units int) []byte {
+	if units <= 0 {
+		units = n / 3 / 64
+		if units < 5 {
+			units = 5
+		}
+	}
+	var out []byte
+	for u := 0; u < units && len(out)+64+3+2 <= n && len(out)+64 < 16383; u++ {
+		out = append(out, 62, 63)
+		for i := 0; i < 61; i++ {
+			out = append(out, 'a')
+		}
+		out = append(out, 0)
+	}
+	if len(out) == 0 {
+		return c09LabelFan(n, 253, 63, 0)
+	}
+	out = append(out, 1, 0, 0)
+	for len(out)+2 <= n {
+		out = append(out, c09PtrTo(1)...)
+	}
+	return out
+}
+
 // ---- DHCPv6 -------------------------------------------------------------------
 
 func c09Tlv6(code int, val []byte) []byte {
@@ -367,6 +398,10 @@ func c09LabelFamilies(entry string, overhead int, wrap func(n int, lab []byte) [
 		mk("fan-long4k", func(n int) []byte { return c09LabelFan(n, 4000, 63, 0) }),
 		mk("fan-longhalf", func(n int) []byte { return c09LabelFan(n, n/2, 63, 0) }),
 		mk("fan-longhalfx1", func(n int) []byte { return c09LabelFan(n, n/4, 1, 0) }),
+		// pointers into label CONTENTS: the octets frame differently than in line
+		mk("hidden-chain", func(n int) []byte { return c09LabelHiddenChain(n, 0) }),
+		mk("hidden-chain3", func(n int) []byte { return c09LabelHiddenChain(n, 3) }),
+		mk("hidden-chain8", func(n int) []byte { return c09LabelHiddenChain(n, 8) }),
 		mk("ptr-chain", func(n int) []byte { return c09LabelPtrChain(n, 1) }),
 		mk("ptr-chain63", func(n int) []byte { return c09LabelPtrChain(n, 63) }),
 		mk("ptr-loop", func(n int) []byte { return c09LabelPtrLoop(n) }),
